@@ -97,6 +97,10 @@ type Run struct {
 
 	StepCapHit bool
 	Hang       bool
+	// ContinuePossible tells the chooser that cands[0] is the task released last
+	ContinuePossible bool
+	// TimeAdvances counts fake-clock advances made to let timers fire
+	TimeAdvances int
 	// Observer, if set, is called for each released step (level-2 race detector etc.).
 	OnStep func(t *Task)
 
@@ -145,8 +149,15 @@ func Probe(name string) {
 
 func (r *Run) probe(name string) { r.Probes[name]++ }
 
+// CountProbe is Probe for callers that already hold the run.
+func (r *Run) CountProbe(name string) {
+	r.mu.Lock()
+	r.Probes[name]++
+	r.mu.Unlock()
+}
+
 func classOf(site string) string {
-	// "file.go:123:go" -> "file.go:go" ; keeps the class stable under line shifts
+	// "file.go:123:go@fn" -> "file.go:go@fn" ; keeps the class stable under line shifts
 	parts := strings.Split(site, ":")
 	if len(parts) >= 3 {
 		return parts[0] + ":" + strings.Join(parts[2:], ":")
@@ -264,7 +275,19 @@ func (r *Run) Loop() {
 			}
 		}
 		if len(parked) == 0 {
+			pending := false
+			for _, t := range r.tasks {
+				if t.state != tDone {
+					pending = true
+				}
+			}
 			r.mu.Unlock()
+			if pending && r.TimeAdvances < 3 {
+				// somebody may be waiting for a timer: advance the fake clock
+				r.TimeAdvances++
+				time.Sleep(time.Hour)
+				continue
+			}
 			// run remaining environment events (e.g. a cancellation scheduled later
 			// than the run lasted) so that the caller observes them; they cannot
 			// rescue a deadlock, which is decided by the harness from task states.
@@ -277,7 +300,8 @@ func (r *Run) Loop() {
 		}
 		sort.Slice(parked, func(i, j int) bool { return lessID(parked[i].ID, parked[j].ID) })
 		cands := parked
-		if last != nil && last.state == tParked {
+		r.ContinuePossible = last != nil && last.state == tParked
+		if r.ContinuePossible {
 			cands = make([]*Task, 0, len(parked))
 			cands = append(cands, last)
 			for _, t := range parked {
@@ -304,6 +328,11 @@ func (r *Run) Loop() {
 			r.Trace = append(r.Trace, st)
 		}
 		r.thash = fnvStr(fnvStr(fnvStr(r.thash, st.Task), st.Site), st.Kind)
+		if oh, ok := r.ohash[st.Site]; ok {
+			r.ohash[st.Site] = fnvStr(fnvStr(oh, st.Task), st.Kind)
+		} else {
+			r.ohash[st.Site] = fnvStr(fnvStr(14695981039346656037, st.Task), st.Kind)
+		}
 		if r.OnStep != nil {
 			r.OnStep(t)
 		}
